@@ -97,7 +97,7 @@ pdgstrf_pivotL(
     pivmax = 0.0;
     pivptr = nsupc;
     diag = EMPTY;
-    old_pivptr = nsupc;
+    old_pivptr = EMPTY; /* the row asked for may not be a candidate at all */
     for (isub = nsupc; isub < nsupr; ++isub) {
         rtemp = fabs (lu_col_ptr[isub]);
 	if ( rtemp > pivmax ) {
@@ -121,11 +121,16 @@ pdgstrf_pivotL(
     
     /* Choose appropriate pivotal element by our policy. */
     if ( *usepr == YES ) {
-        rtemp = fabs (lu_col_ptr[old_pivptr]);
-	if ( rtemp != 0.0 && rtemp >= thresh )
-	    pivptr = old_pivptr;
-	else
-	    *usepr = NO;
+	if ( old_pivptr == EMPTY ) {
+	    *usepr = NO; /* not in this column: fall back, as for a pivot
+			    that fails the threshold */
+	} else {
+	    rtemp = fabs (lu_col_ptr[old_pivptr]);
+	    if ( rtemp != 0.0 && rtemp >= thresh )
+		pivptr = old_pivptr;
+	    else
+		*usepr = NO;
+	}
     }
     if ( *usepr == NO ) {
 	/* Can we use diagonal as pivot? */
